@@ -224,42 +224,45 @@ func init() {
 // the same *Call used for several round trips (Conn.RoundTrip takes a caller-owned Call), each
 // with a fresh reply object: the reply of an earlier round trip, kept by the caller, is not
 // touched by a later one, whatever the relative sizes and whether a context buffer was used.
-func c11ReusedCall(x *X) {
-	m := c11Modes[x.Choose(5)]
-	sizes := [][3]int{{40, 12, 40}, {12, 40, 12}, {30, 30, 30}, {200, 20, 90}, {20, 200, 20}}[x.Choose(5)]
-	f := newFixture(m.so, m.co)
-	done := make(chan *rpc.Call, 1)
-	call := &rpc.Call{ServiceMethod: "Svc.Echo", Done: done}
-	type kept struct {
-		reply []byte
-		want  []byte
-		sum   string
-	}
-	var ks []*kept
-	for i, n := range sizes {
-		args := mkPayload(byte(i+1), 0, n)
-		k := &kept{want: transform(args)}
-		call.Args, call.Reply, call.Error = &args, &k.reply, nil
-		f.conn.RoundTrip(call)
-		recvCall(done)
-		if call.Error != nil || !eqBytes(k.reply, k.want) {
-			x.Fail("C11/reply-wrong-at-return/reused-call", "round trip %d with a reused Call: err=%v reply %x", i, call.Error, k.reply)
-			return
+func c11ReusedCall(prop string) func(x *X) {
+	return func(x *X) {
+		m := c11Modes[x.Choose(5)]
+		sizes := [][3]int{{40, 12, 40}, {12, 40, 12}, {30, 30, 30}, {200, 20, 90}, {20, 200, 20}}[x.Choose(5)]
+		f := newFixture(m.so, m.co)
+		done := make(chan *rpc.Call, 1)
+		call := &rpc.Call{ServiceMethod: "Svc.Echo", Done: done}
+		type kept struct {
+			reply []byte
+			want  []byte
+			sum   string
 		}
-		k.sum = digest(k.reply)
-		ks = append(ks, k)
-		for j, o := range ks {
-			if digest(o.reply) != o.sum || !eqBytes(o.reply, o.want) {
-				x.Fail("C11/client-data-mutated/reused-call", "the reply of round trip %d (%d bytes) changed when the same Call made round trip %d (%d bytes); sizes %v, mode %s", j, len(o.want), i, len(k.want), sizes, m.name)
+		var ks []*kept
+		for i, n := range sizes {
+			args := mkPayload(byte(i+1), 0, n)
+			k := &kept{want: transform(args)}
+			call.Args, call.Reply, call.Error = &args, &k.reply, nil
+			f.conn.RoundTrip(call)
+			recvCall(done)
+			if call.Error != nil || !eqBytes(k.reply, k.want) {
+				x.Fail(prop+"/reply-wrong-at-return/reused-call", "round trip %d with a reused Call: err=%v reply %x", i, call.Error, k.reply)
+				return
+			}
+			k.sum = digest(k.reply)
+			ks = append(ks, k)
+			for j, o := range ks {
+				if digest(o.reply) != o.sum || !eqBytes(o.reply, o.want) {
+					x.Fail(map[string]string{"C11": "C11/client-data-mutated/reused-call", "C01": "C01/earlier-reply-replaced/reused-call"}[prop], "the reply of round trip %d (%d bytes) changed when the same Call made round trip %d (%d bytes); sizes %v, mode %s", j, len(o.want), i, len(k.want), sizes, m.name)
+				}
 			}
 		}
+		x.Outcome("%s %v", m.name, sizes)
+		f.conn.Close()
+		vs.Quiesce()
 	}
-	x.Outcome("%s %v", m.name, sizes)
-	f.conn.Close()
-	vs.Quiesce()
 }
 
 func init() {
 	register(&Scenario{Prop: "C11", Name: "c11/frame-boundary-buf1000", Quick: []Bound{{0, 0}}, Thorough: []Bound{{1, 0}}, Body: c11BoundaryBuf(c11Modes[:5], 1000), BudgetQ: 15})
-	register(&Scenario{Prop: "C11", Name: "c11/reused-call", Quick: []Bound{{0, 0}, {1, 0}}, Thorough: []Bound{{2, 0}}, Body: c11ReusedCall, BudgetQ: 15})
+	register(&Scenario{Prop: "C11", Name: "c11/reused-call", Quick: []Bound{{0, 0}, {1, 0}}, Thorough: []Bound{{2, 0}}, Body: c11ReusedCall("C11"), BudgetQ: 15})
+	register(&Scenario{Prop: "C01", Name: "c01/reused-call", Quick: []Bound{{0, 0}}, Thorough: []Bound{{1, 0}}, Body: c11ReusedCall("C01"), BudgetQ: 15})
 }
